@@ -105,10 +105,18 @@ type DocCase struct {
 	TrimBlocks bool   `json:"trim_blocks"`
 	LStrip     bool   `json:"lstrip_blocks"`
 	Kind       string `json:"kind"`
+	// Base: when set, Src is a child template served as /main that extends /base (= Base); OptsAfter: the options
+	// are switched on on the compiled template instead of on the set
+	Base      eng.Q `json:"base,omitempty"`
+	OptsAfter bool  `json:"opts_after,omitempty"`
 }
 
 func (c *DocCase) ID() string {
-	return fmt.Sprintf("%q trim=%v lstrip=%v", string(c.Src), c.TrimBlocks, c.LStrip)
+	id := fmt.Sprintf("%q trim=%v lstrip=%v", string(c.Src), c.TrimBlocks, c.LStrip)
+	if c.Base != "" {
+		id += fmt.Sprintf(" base=%q after=%v", string(c.Base), c.OptsAfter)
+	}
+	return id
 }
 
 func ctx() pongo2.Context { return pongo2.Context{"l": []int{1, 2}} }
@@ -117,11 +125,31 @@ func (c *DocCase) Exec(t *eng.T) {
 	if strings.Contains(string(c.Src), "-") || c.TrimBlocks || c.LStrip {
 		t.Nontrivial()
 	}
-	set, _ := px.NewSet(nil)
-	set.Options.TrimBlocks = c.TrimBlocks
-	set.Options.LStripBlocks = c.LStrip
-	got := px.RenderIn(set, string(c.Src), ctx())
-	want := px.Render(nil, string(c.Twin), ctx())
+	var got, want px.Out
+	if c.Base != "" {
+		set, _ := px.NewSet(map[string]string{"/main": string(c.Src), "/base": string(c.Base)})
+		if !c.OptsAfter {
+			set.Options.TrimBlocks = c.TrimBlocks
+			set.Options.LStripBlocks = c.LStrip
+		}
+		tpl, out := px.CompileFile(set, "/main")
+		if tpl == nil {
+			got = out
+		} else {
+			if c.OptsAfter {
+				tpl.Options.TrimBlocks = c.TrimBlocks
+				tpl.Options.LStripBlocks = c.LStrip
+			}
+			got = px.Exec(tpl, ctx())
+		}
+		want = px.RenderFile(map[string]string{"/main": string(c.Twin), "/base": string(c.Base)}, "/main", ctx())
+	} else {
+		set, _ := px.NewSet(nil)
+		set.Options.TrimBlocks = c.TrimBlocks
+		set.Options.LStripBlocks = c.LStrip
+		got = px.RenderIn(set, string(c.Src), ctx())
+		want = px.Render(nil, string(c.Twin), ctx())
+	}
 	t.Outcome(got.String())
 	if want.Failed() {
 		t.Fail("harness:twin-fails", "hand-stripped twin %q does not render: %s", string(c.Twin), want)
@@ -184,9 +212,99 @@ func refSpaceless(s string) string {
 	return b.String()
 }
 
+// refSpacelessLine is the second reading (the one pongo2's documentation of the tag implies: a "tag" is anything
+// from a '<' to a later '>' on the same line): the run is removed iff it directly follows a '>' that has a '<' before
+// it on its line and directly precedes a '<' that has a '>' after it on its line.
+func refSpacelessLine(s string) string {
+	isWS := func(c byte) bool { return strings.IndexByte(" \t\n\v\f\r", c) >= 0 }
+	var b strings.Builder
+	for i := 0; i < len(s); {
+		if !isWS(s[i]) {
+			b.WriteByte(s[i])
+			i++
+			continue
+		}
+		j := i
+		for j < len(s) && isWS(s[j]) {
+			j++
+		}
+		remove := false
+		if i > 0 && s[i-1] == '>' && j < len(s) && s[j] == '<' {
+			before, after := false, false
+			for k := i - 2; k >= 0 && s[k] != '\n'; k-- {
+				if s[k] == '<' {
+					before = true
+				}
+			}
+			for k := j + 1; k < len(s) && s[k] != '\n'; k++ {
+				if s[k] == '>' {
+					after = true
+				}
+			}
+			remove = before && after
+		}
+		if !remove {
+			b.WriteString(s[i:j])
+		}
+		i = j
+	}
+	return b.String()
+}
+
+// refSpacelessStrict: a tag is '<', characters other than '<' and '>', '>'; a run is removed iff it lies directly
+// between the end of one tag and the start of the next.
+func refSpacelessStrict(s string) string {
+	isWS := func(c byte) bool { return strings.IndexByte(" \t\n\v\f\r", c) >= 0 }
+	tagEndsAt := func(e int) bool { // s[e] == '>' closes a tag
+		for k := e - 1; k >= 0; k-- {
+			if s[k] == '<' {
+				return true
+			}
+			if s[k] == '>' {
+				return false
+			}
+		}
+		return false
+	}
+	tagStartsAt := func(b int) bool {
+		for k := b + 1; k < len(s); k++ {
+			if s[k] == '>' {
+				return true
+			}
+			if s[k] == '<' {
+				return false
+			}
+		}
+		return false
+	}
+	var b strings.Builder
+	for i := 0; i < len(s); {
+		if !isWS(s[i]) {
+			b.WriteByte(s[i])
+			i++
+			continue
+		}
+		j := i
+		for j < len(s) && isWS(s[j]) {
+			j++
+		}
+		if !(i > 0 && s[i-1] == '>' && tagEndsAt(i-1) && j < len(s) && s[j] == '<' && tagStartsAt(j)) {
+			b.WriteString(s[i:j])
+		}
+		i = j
+	}
+	return b.String()
+}
+
 func (c *SpacelessCase) Exec(t *eng.T) {
 	body := string(c.Body)
-	want := refSpaceless(body)
+	want := refSpacelessStrict(body)
+	if strings.ContainsAny(body, "<>") && (refSpacelessLine(body) != want) {
+		// stray angle brackets for which "between two HTML tags" can be read in two ways: outside the fragment
+		t.Skip()
+		return
+	}
+	_ = refSpaceless
 	if want != body {
 		t.Nontrivial()
 	}
@@ -311,11 +429,37 @@ func run(r *eng.Runner) {
 			})
 		}
 	}
+	// the document as the overriding block of a child template (the base carries no strippable whitespace)
+	r.Group("inheritance", "c15.doc", "the one-construct documents (W over 5 runs) as the body of a block that overrides a block of an extended base, served from a loader; options switched on on the set before compiling and on the compiled child afterwards")
+	const baseSrc = "[{% block a %}x{% endblock %}|{% block z %}z{% endblock %}]"
+	for _, c := range cs {
+		enum.Tuples(len(w2), 4, func(wi []int) bool {
+			for mask := 0; mask < 1<<c.nd; mask++ {
+				if r.Quick() && c.nd == 4 && mask != 0 && mask != 15 && mask != 5 && mask != 10 {
+					continue
+				}
+				items := []item{{tag: `extends "base"`, block: true}, {tag: "block a", block: true}}
+				items = append(items, item{text: w2[wi[0]] + "a" + w2[wi[1]]})
+				items = append(items, c.items(flags(mask, c.nd), "\n ", " \n")...)
+				items = append(items, item{text: w2[wi[2]] + "b" + w2[wi[3]]})
+				items = append(items, item{tag: "endblock", block: true})
+				src := source(items)
+				for opt := 1; opt < 4; opt++ {
+					tb, ls := opt&1 != 0, opt&2 != 0
+					twin := source(handStrip(items, tb, ls))
+					for _, after := range []bool{false, true} {
+						r.Do(&DocCase{Src: eng.Q(src), Twin: eng.Q(twin), TrimBlocks: tb, LStrip: ls, Kind: "inherit:" + c.name, Base: baseSrc, OptsAfter: after})
+					}
+				}
+			}
+			return !r.Stopped()
+		})
+	}
 	n := 6
 	if r.Quick() {
 		n = 5
 	}
-	frs := []string{"<a>", "</a>", "<br/>", "x", " ", "\n\t"}
+	frs := []string{"<a>", "</a>", "<br/>", "x", " ", "\n\t", "->", "< 2"}
 	r.Group("spaceless", "c15.spaceless", fmt.Sprintf("all sequences of <=%d fragments over %q as the body of spaceless (literal and rendered from a variable)", n, frs))
 	enum.Strings(frs, n, func(s string, _ []int) bool {
 		r.Do(&SpacelessCase{Body: eng.Q(s)})
@@ -329,7 +473,7 @@ func init() {
 	eng.Register(&eng.Check{
 		ID:    "C15",
 		Title: "Whitespace control removes exactly the whitespace it names",
-		Rule: "bounded-exhaustive documents whose literal text carries whitespace runs around constructs with every subset of dash markers, under all four TrimBlocks x LStripBlocks settings, first render of a fresh compile; the oracle is metamorphic: the output must equal the output of the source from which the generator (which knows where every whitespace run is) deleted the named whitespace by hand and removed all markers and options. spaceless: every fragment sequence up to the bound against 'delete runs strictly between > and <'. " +
+		Rule: "bounded-exhaustive documents whose literal text carries whitespace runs around constructs with every subset of dash markers, under all four TrimBlocks x LStripBlocks settings, first render of a fresh compile; the oracle is metamorphic: the output must equal the output of the source from which the generator (which knows where every whitespace run is) deleted the named whitespace by hand and removed all markers and options. spaceless: every fragment sequence up to the bound (tags, text, whitespace, stray '->' and '< 2') against 'delete the runs that lie directly between the end of one tag and the start of the next'; bodies whose stray brackets make two readings of 'tag' disagree are skipped. " +
 			"Non-trivial: the document carries a marker or an option is on (docs) / the reference actually removes something (spaceless). Cases deduplicated by source+options.",
 		Assumptions: []string{
 			"a dash deletes the maximal run of space, tab, CR, LF of the adjacent literal text; TrimBlocks one LF that is the first byte after %}; LStripBlocks the trailing spaces/tabs before {% (variable tags are not block tags)",
